@@ -42,19 +42,19 @@ package apk
 //@ macro hasherOK(h *merkleHasher) bool = len(h.buf) == 1048576 && 0 <= h.n && h.n <= 1048576 && len(h.hashes) == len(h.blocks)
 //@
 //@ func (*merkleHasher).block
-//@   property C09
+//@   property C09 C05
 //@   requires len(h.hashes) == len(h.blocks)
 //@   modifies h.count, mem(h.blocks)
 //@
 //@ func (*merkleHasher).flush
-//@   property C09
+//@   property C09 C05
 //@   requires hasherOK(h)
 //@   ensures @buffer_emptied h.n == 0 && hasherOK(h)
 //@   before call (*merkleHasher).block(_, b): assert @final_short_block_is_the_buffered_tail len(b) == old(h.n) && len(b) > 0 && samearr(b, h.buf)
 //@   modifies h.n, h.count, mem(h.blocks)
 //@
 //@ func (*merkleHasher).Write
-//@   property C09
+//@   property C09 C05
 //@   ghost total int
 //@   ghost S intmap
 //@   ghost S2 intmap
